@@ -43,6 +43,9 @@ pub const FMT_MINIS: &[&str] = &[
     "let f = { fn (x) (y) => ret (x, (y)) } in ! f 1 2",
     "fn x => fn y => fn z => ret (x, y, z)",
     "fn x => (fn y => ret y)",
+    "let s =\n--| line one\n--| line two\n--|\n@[literal] _ in ret s",
+    "let s =\n--|\n@[literal] _ in ret s",
+    "let s =\n--| first\n--|\n--| third\n@(literal) in ret s",
     "let f = (fn (x : Int64) => (fn (y : Int64) => y)) in ret 1",
     "let r = (a = 1, b = 2) in let (= a, = b) = r in ret (a = a, b = b)",
     "let r = (a = 1, b = 2) in let (a = a, b = c) = r in ret (r/a)",
@@ -290,6 +293,29 @@ fn format_parses(text: &str) -> bool {
 
 /// normalised comment list: (kind, text) with adjacent line comments merged, marker spacing and
 /// trailing whitespace normalised; block comment bodies line by line without the leading blanks of their lines.
+/// the `--|` text blocks of a source (maximal runs of text lines on consecutive lines), each as the
+/// string a `@[literal]` / `@[doc]` directive attached to it denotes: marker and one blank removed,
+/// lines joined by newlines. This is part of the MEANING of a program.
+fn text_blocks_of(src: &str) -> Vec<String> {
+    let mut out: Vec<String> = vec![];
+    let mut last_line_end: Option<usize> = None;
+    for t in reflex::scan(src).iter().filter(|t| t.kind == K::TextLine) {
+        let raw = src[t.start..t.end].trim_end_matches('\n');
+        let body = raw["--|".len()..].strip_prefix(' ').unwrap_or(&raw["--|".len()..]).trim_end().to_string();
+        // contiguous with the previous text line iff only blanks and one newline separate them
+        let contiguous = last_line_end.map(|e| { let gap = &src[e..t.start]; gap.matches('\n').count() <= 1 && gap.trim().is_empty() }).unwrap_or(false);
+        if contiguous {
+            let b = out.last_mut().unwrap();
+            b.push('\n');
+            b.push_str(&body);
+        } else {
+            out.push(body);
+        }
+        last_line_end = Some(src[..t.end].trim_end_matches('\n').len());
+    }
+    out
+}
+
 fn comments_of(src: &str) -> Vec<(String, String)> {
     let mut out: Vec<(String, String)> = vec![];
     let toks = reflex::scan(src);
@@ -551,6 +577,12 @@ impl Check for Fmt {
                             let telescope_merge = a != b && input.contains(". (exists") && strip(&a) == strip(&b);
                             if a != b && !telescope_merge {
                                 r = r.violation(format!("formatting changes the desugared structure of the program with {} {}", devkind, position), format!("input:\n{}\noutput:\n{}\ndesugared input:  {}\ndesugared output: {}", input, out, a, b));
+                            } else if input.contains("--|") && matches!(dev, Dev::None | Dev::Gap(..) | Dev::Paren(..)) {
+                                // the text a literal / doc directive denotes is not in the desugared shape
+                                let (ta, tb) = (text_blocks_of(&input), text_blocks_of(&out));
+                                if ta != tb {
+                                    r = r.violation(format!("formatting changes the text of a `--|` block (the value of an attached literal) with {} {}", devkind, position), format!("input blocks {:?}\noutput blocks {:?}\ninput:\n{}\noutput:\n{}", ta, tb, input, out));
+                                }
                             }
                         }
                         | (Ok(Ok(_)), Ok(Err(e))) => {
